@@ -46,12 +46,29 @@ def gen_cases(rng, tier):
                 fr.append(p)
             coords.append(fr)
         cases.append({'m': m, 'res': res, 'coords': coords})
+    # long runs: more samples in a single voxel than 16-bit (and, per axis sum, than a few 16-bit words) can count
+    for _k in range({'quick': 2, 'thorough': 6, 'search': 1}[tier]):
+        m = synth.int_lattice(rng, rng.choice(KINDS))
+        frames = rng.choice([66000, 70000, 131100])
+        pts = [[rng.randint(0, DEN - 1) for _ in range(3)] for _ in range(4)]
+        cases.append({'m': m, 'res': rng.choice([1.0, 1.5]), 'long': {'frames': frames, 'static': pts[0], 'cycle': pts[1:]}, 'coords': []})
     return cases
+
+
+def _coords(case):
+    if 'long' not in case:
+        return np.array(case['coords'], dtype=float) / DEN
+    L = case['long']
+    c = np.zeros((L['frames'], 2, 3))
+    c[:, 0, :] = np.array(L['static'], dtype=float) / DEN
+    cyc = np.array(L['cycle'], dtype=float) / DEN
+    c[:, 1, :] = cyc[np.arange(L['frames']) % len(cyc)]
+    return c
 
 
 def impl(case):
     from gemdat.volume import trajectory_to_volume
-    c = np.array(case['coords'], dtype=float) / DEN
+    c = _coords(case)
     traj = synth.make_traj(case['m'], ['Li'] * c.shape[1], c)
     lengths = [float(v) for v in traj.get_lattice().lengths]
     res = min(case['res'], min(lengths))
@@ -128,8 +145,8 @@ def oracle(case, out):
 
 
 def coq_term(case, out):
-    if 'data' not in out or _near_int(case, out):
-        return None
+    if 'data' not in out or _near_int(case, out) or 'long' in case:
+        return None       # long runs are decided by the oracle only (a literal of 10^5 samples is too large for the tie)
     pos = np.array(out['pos'])
     if not np.array_equal(pos, np.rint(pos)):
         return None
@@ -165,8 +182,9 @@ def classify(case, out):
         tags.append('maxdim>=98' if max(out['dims']) >= 98 else 'small-grid')
         if _near_int(case, out):
             tags.append('resolution-on-boundary-excluded')
+    tags.append('long-run(>65535 samples per voxel)' if 'long' in case else 'short-run')
     return tags
 
 
 def sample(case, out):
-    return {'m': case['m'], 'res': out.get('res'), 'dims': out.get('dims'), 'coords0': case['coords'][0]}
+    return {'m': case['m'], 'res': out.get('res'), 'dims': out.get('dims'), 'coords0': case['coords'][0] if case['coords'] else case.get('long')}
